@@ -43,7 +43,7 @@ def run(cmd, **kw):
 # ---------------------------------------------------------------- extraction
 TRANSLATE_STATUS = (True, 'not run')
 WIRE_STATUS = (True, 'not run')
-WIRE_PROPS = ('C01', 'C02', 'C03', 'C04', 'C05', 'C06', 'C11')      # properties whose <prop>T module is about Generated/TranslatedWire.lean (tools/c2lean_wire.py)
+WIRE_PROPS = ('C01', 'C02', 'C03', 'C04', 'C05', 'C06', 'C07', 'C08', 'C11')      # properties whose <prop>T module is about Generated/TranslatedWire.lean (tools/c2lean_wire.py)
 
 
 # which translated functions a property's <prop>T module is about (a function of another group leaving the subset is not this property's business)
